@@ -264,6 +264,8 @@ class SymCtx(BaseCtx):
         return self.symx.ite(c, a, b)
 
     def eq(self, a, b):
+        if not self.symx._is_sym(a) and not self.symx._is_sym(b):
+            return RealCtx.eq(self, a, b)      # concrete floats: same tolerance as on the real side
         na, nb = self.symx.is_nan(a), self.symx.is_nan(b)
         if na is False and nb is False:
             return a == b
